@@ -150,6 +150,12 @@ def check(ctx):
                     ctx.count("explicit-n_batch")
                     try:
                         lab, _, _ = impl_cpt_labels(tp, order, fc_cutoff=fc, n_batch=k)
+                    except ValueError as ex:
+                        if "range() arg 3 must not be zero" in str(ex):
+                            ctx.count("n_batch-larger-than-number-of-combinations (invalid value, refused loudly)")
+                            continue
+                        ctx.fail("oracle", f"C11/oracle/n_batch-argument/order{order}", f"compr_permutation_lat_trans_O{order}(n_batch={k}) raised ValueError: {ex}", replay={**rep, "n_batch": k}, has_input=True)
+                        break
                     except Exception as ex:  # noqa: BLE001
                         ctx.fail("oracle", f"C11/oracle/n_batch-argument/order{order}", f"compr_permutation_lat_trans_O{order}(n_batch={k}) raised {type(ex).__name__}: {ex}", replay={**rep, "n_batch": k}, has_input=True)
                         break
